@@ -11,6 +11,11 @@
   what `Net.WF C R Rd n` says about them when `Rd ⊆ D`, `Net.WF.angIn`).  `Codec.Printer` is `PrinterOn` with the
   trivial domain (every law for every `x`): C12's record round trips and the toy `decCodec` use that form.
   The decimal printer `%.{p}g` (`fmt`, `rd`) satisfies its laws for every `x`; they stay unrestricted.
+
+  Round 8: the elements of `<cov-mat>` are a THIRD printer (`Codec.fmtCov`: `updated_xml_covmat` prints them with
+  `scientific`, `precision(16)`, not through `to_xmlstr`) with its own quantisation `qc`: `rd (fmtCov x) = some (qc x)`,
+  `fmtCov (qc x) = fmtCov x`, `qc (neg x) = neg (qc x)`; `quantNet C q qc qd` rounds the covariance elements with `qc`
+  and everything else as before.  `Codec.Printer C q qd` asks `qc = q` (one decimal printer: the toys, C12's records).
 -/
 import Gama.Lemmas.ExportNet
 namespace Gama.Export
@@ -100,6 +105,18 @@ theorem Codec.PrinterOn.lawfulOn {C : Codec K} {D : K → Prop} {q qc qd : K →
     covRep_neg := fun x hx => by
       rw [P.covRep_iff] at hx ⊢
       rw [P.qc_neg, hx] }
+
+/-- `Net.WFc` depends on `Rc` only through its extension -/
+theorem Net.WFc.congr_cov {C : Codec K} {R Rc Rc' Rd : K → Prop} (h : ∀ x, Rc x ↔ Rc' x) (n : Net K) :
+    n.WFc C R Rc Rd ↔ n.WFc C R Rc' Rd := by
+  have e : Rc = Rc' := funext (fun x => propext (h x))
+  rw [e]
+
+/-- for a printer, "the `<cov-mat>` text gives the element back" is "the covariance printer does not round it": the side
+    condition `Net.WF` in arithmetic -/
+theorem Codec.PrinterOn.wf_iff {C : Codec K} {D : K → Prop} {q qc qd : K → K} (P : C.PrinterOn D q qc qd) (R Rd : K → Prop)
+    (n : Net K) : n.WF C R Rd ↔ n.WFc C R (fun x => qc x = x) Rd :=
+  Net.WFc.congr_cov (fun x => P.covRep_iff x) n
 
 /-! ## the domain of the angular values -/
 
@@ -350,12 +367,12 @@ theorem exportNet_quant (P : C.PrinterOn D q qc qd) (n : Net K) (hD : n.AngIn D)
     map_map_eq_mem _ _ _ (fun c hc => exportCluster_quant P n.head.ys n.par.gons n.par.sigmaApr c (hD c hc))
   simp only [exportNet, quantNet, hh, hys, hg, exportParams_quant P, filter_active_quant, hp, hc]
 
-/-- reading the export gives the quantised network (without its unused points); `hD`: the angular values a file in
-    degrees prints as sexagesimal text are in the domain of that printer -/
+/-- reading the export gives the quantised network (without its unused points; covariance elements rounded by THEIR
+    printer, `qc`); `hD`: the angular values a file in degrees prints as sexagesimal text are in the domain of that printer -/
 theorem parse_export_net_printer (P : C.PrinterOn D q qc qd) (impl : Kind → K) (par0 : Params K) (n : Net K) (hD : n.AngIn D)
-    (hw : (quantNet C q qc qd n).WF C (fun x => q x = x) (fun x => D x ∧ qd x = x)) :
+    (hw : (quantNet C q qc qd n).WFc C (fun x => q x = x) (fun x => qc x = x) (fun x => D x ∧ qd x = x)) :
     parseNet C impl par0 (exportNet C n) = .ok (canon (quantNet C q qc qd n)) := by
   rw [← exportNet_quant P n hD]
-  exact parse_export_net C P.lawfulOn P.degLawfulOn impl par0 _ hw
+  exact parse_export_net C P.lawfulOn P.degLawfulOn impl par0 _ ((P.wf_iff _ _ _).mpr hw)
 
 end Gama.Export
